@@ -796,6 +796,8 @@ class Interp:
             if frame.locals[nm] is None and not rebound:
                 continue  # None cannot be mutated in place, and the name is never re-bound
             cur = frame.locals[nm]
+            if isinstance(cur, SObj) and not rebound and any(k == nm or k.startswith(nm + ".") for k in lc.modifies):
+                continue  # an object mutated through its methods: the loop contract's modifies clause names what changes
             new = self.havoc_like(cur, nm)
             if not rebound and _is_mutable_box(cur) and type(new) is type(cur):
                 # the object is only mutated in place: havoc the box itself so that every alias
